@@ -30,6 +30,10 @@ REAL_STUB = {
 }
 
 
+def replay_dir():
+    return os.environ.get("VERIF_REPLAY_DIR") or os.path.join(VERIF, "replays")
+
+
 def budget_for(pid, tier):
     b = os.environ.get("VERIF_BUDGET_S")
     if b:
@@ -46,8 +50,9 @@ def merge_counters(dicts):
 
 
 def write_evidence(pid, ev):
-    os.makedirs(os.path.join(VERIF, "evidence"), exist_ok=True)
-    path = os.path.join(VERIF, "evidence", pid + ".json")
+    evdir = os.environ.get("VERIF_EVIDENCE_DIR") or os.path.join(VERIF, "evidence")
+    os.makedirs(evdir, exist_ok=True)
+    path = os.path.join(evdir, pid + ".json")
     tmp = path + ".tmp"
     with open(tmp, "w") as f:
         json.dump(ev, f, indent=1, sort_keys=False, default=str)
@@ -60,7 +65,7 @@ def check_graph(pid, tier, seed, runs):
     t0 = time.monotonic()
     budget = budget_for(pid, tier)
     info = orchestrator.repo_info()
-    outdir = os.path.join(VERIF, "replays")
+    outdir = replay_dir()
     argvs = []
     for w in range(NWORKERS):
         a = [pid, "--seed", seed, "--tier", tier, "--worker", w, "--nworkers", NWORKERS,
